@@ -4,6 +4,7 @@ import BtcwVerif.Lemmas.WFMined
 import BtcwVerif.Lemmas.WFRollback
 import BtcwVerif.Lemmas.Calls
 import BtcwVerif.Lemmas.RefAll
+import BtcwVerif.Lemmas.RefUtxos
 /-!
 # C01 — balance and spendable outputs equal ledger truth
 
@@ -289,6 +290,18 @@ open Ledger in
 theorem C01_balance_refines (s : Store) (L : Ledger) (hg : Good s L) (mat m sy : Int) :
     balance s L.now mat m sy = .ok (Ledger.balance L mat m sy) := by
   rw [C01_balance_inv s (inv_of_wf _ hg.wf2.wf), balance_refines hg]
+
+open Ledger in
+/-- **C01, spendable outputs, against the ledger**: after every chain-consistent history `UnspentOutputs` succeeds and
+lists — each once, in the store's bucket order — exactly the outputs the C01 sentence names on the ledger: the credited
+outputs of known transactions that no known transaction spends and that are not leased, each with its amount, its
+confirming block (height, hash, time; none while unconfirmed) and its coinbase flag. -/
+theorem C01_utxos_ledger (es : List Event) (hc : ConsistentHistory {} es) :
+    ∃ s l, storeAfter Store.empty {} es = .ok s ∧ unspentOutputs s (ledgerAfter {} es).now = .ok l ∧
+      l.Perm (Ledger.utxos (ledgerAfter {} es)) := by
+  obtain ⟨s, h1, hg, _⟩ := good_reachable es hc
+  obtain ⟨l, h2, h3⟩ := utxos_refines hg
+  exact ⟨s, l, h1, h2, h3⟩
 
 /-- non-vacuity of `C01_balance_ledger`: a chain-consistent history with a reorg — a coinbase `(1)` confirmed at height
 1, a payment `(2)` confirmed at height 2, a spender `(3)` of `(2,0)` seen unconfirmed, block 2 disconnected, `(2)`
